@@ -369,3 +369,31 @@ def connect_lists_on_heap(H, case):
         z3.And(*[m_ != f for f in fset]), z3.And(heap.tab["out_links"][m_] == old.tab["out_links"][m_], heap.tab["out_link_slots"][m_] == old.tab["out_link_slots"][m_],
                                                  heap.len["out_links"][m_] == old.len["out_links"][m_])))))
     H.cover("reached")
+
+
+@contract("chained_list_operands", ["C07"], kind="bounded",
+          targets=["rv.modules.module:ModuleList.__rshift__", "rv.modules.module:ModuleList.__lshift__", "rv.modules.module:Module.__rshift__", "rv.modules.module:Module.__lshift__"],
+          bound="four chains over a project with output + 6 modules, natively")
+def chained_list_operands(H, _):
+    """Chaining keeps working through list operands: `a >> [b, c] >> [d, e] >> f` and the `<<` mirror
+    connect every pair of neighbouring stages (and nothing else), because each operator hands on a
+    ModuleList; the tables stay consistent."""
+    def fresh():
+        p = Project()
+        return p, [p.new_module(Amplifier) for _ in range(6)]
+
+    p, (a, b, c, d, e, f) = fresh()
+    res = a >> [b, c] >> [d, e] >> f
+    want = {(a.index, b.index), (a.index, c.index)} | {(x.index, y.index) for x in (b, c) for y in (d, e)} | {(d.index, f.index), (e.index, f.index)}
+    H.check("rshift_chain_connects_neighbouring_stages", L.graph_of(p) == want and L.links_ok(p) is None, witness={"have": sorted(L.graph_of(p)), "want": sorted(want)})
+    H.check("rshift_chain_returns_last_operand", res is f)
+    p, (a, b, c, d, e, f) = fresh()
+    res = f << [d, e] << [b, c] << a
+    H.check("lshift_chain_connects_neighbouring_stages", L.graph_of(p) == want and L.links_ok(p) is None, witness={"have": sorted(L.graph_of(p)), "want": sorted(want)})
+    p, (a, b, c, d, e, f) = fresh()
+    mid = a >> [b, c]
+    H.check("list_result_is_chainable", isinstance(mid, ModuleList) and isinstance(mid >> [d, e], ModuleList) and isinstance(mid << [f], ModuleList))
+    p, (a, b, c, d, e, f) = fresh()
+    a >> [b, c] >> [d, e]
+    a >> [b, ~c] >> [~d, e]
+    H.check("negated_elements_inside_chained_lists", L.links_ok(p) is None, witness={"have": sorted(L.graph_of(p))})
